@@ -212,7 +212,7 @@ def sendPhase (tbl : List Point) (fn ch : String) : Option Phase :=
   (findPoint tbl fn .send ch).map (fun p => .send p.alts)
 
 def replyPhase (tbl : List Point) (fn : String) : Option Phase :=
-  (findPoint tbl fn .recv "ch").map (fun p => .reply p.sel p.alts)
+  (findPoint tbl fn .recv "made#1").map (fun p => .reply p.sel p.alts)
 
 def fireSpec (tbl : List Point) (fn : String) : Option Spec := do
   let s ← sendPhase tbl fn "t.Event"
@@ -245,7 +245,7 @@ def specOf (tbl : List Point) (op : String) : Option Spec :=
   else if op == "NewPeer" then
     (fireSpec tbl "tor.Torrent.NewPeer").map (fun s => { s with carriesConn := true })
   else if op == "Announce" then
-    (sendPhase tbl "tor.Announce" "t.Event").map (fun s => { phases := [.lookup, s] })
+    (sendPhase tbl "tor.Announce" "Get(h).Event").map (fun s => { phases := [.lookup, s] })
   else if op == "RequestNoWait" then fireSpec tbl "tor.Torrent.Request"
   else if op == "WriterClose" then
     (sendPhase tbl "tor.writer.writeEvent" "w.t.Event").map (fun s => { phases := [s] })
@@ -255,7 +255,7 @@ def specOf (tbl : List Point) (op : String) : Option Spec :=
     pure { phases := [s, .deleted d.alts], goAway := true }
   else if op == "ReaderRead" then do
     let r ← rpcSpec tbl "tor.Torrent.Request"
-    let w ← findPoint tbl "tor.Reader.Read" .recv "done"
+    let w ← findPoint tbl "tor.Reader.Read" .recv "local"
     pure { r with phases := r.phases ++ [.signal w.alts] }
   else none
 
@@ -369,7 +369,7 @@ def delFactsOf (tbl : List Point) (peerDoneDefer : Bool) : DelFacts :=
       !rows.isEmpty && rows.all (fun p => p.sel && p.alts.contains .tDone),
     peerDoneAlways := peerDoneDefer,
     readerWatchesDone :=
-      match findPoint tbl "tor.Reader.Read" .recv "done" with
+      match findPoint tbl "tor.Reader.Read" .recv "local" with
       | some p => p.sel && p.alts.contains .tDone
       | none => false }
 
